@@ -68,7 +68,8 @@ def world():
         w[nm] = z3.Int(nm)
     w['drops_are'] = drops_are
     w['empty_list'] = lambda x: z3.BoolVal(isinstance(x, Quoted) and len(x.items) == 0)
-    w['__bases__'] = {'LiveMedia': ['MediaRequestBase'], 'MediaRequestBase': ['RequestHandlerBase']}
+    w['mup'], w['update_count'], w['uc_none'] = z3.Int('mup'), z3.Int('update_count'), z3.Bool('uc_none')
+    w['__bases__'] = {'ServeManifest': ['RequestHandlerBase'], 'LiveMedia': ['MediaRequestBase'], 'MediaRequestBase': ['RequestHandlerBase']}
     return w
 
 
@@ -222,6 +223,53 @@ INJECTED = [injected('number', True), injected('time', True), injected('time', F
 SCALE_INLINE = Contract(key='dashlive/utils/date_time.py:scale_timedelta', props=[], inline=True)
 
 
+# ----------------------------------------------------------------------------- manifest side
+MFR = 'dashlive/server/requesthandler/manifest_requests.py'
+
+
+def manifest_error(kind):
+    def env(w):
+        ast_, c1 = DT.decomposed('ast')
+        pos_t = ClockDT(w['pos_day'], w['pos_h'], w['pos_m'], w['pos_s'], w['pos_usec'])
+        c2 = z3.And(0 <= w['pos_h'], w['pos_h'] < 24, 0 <= w['pos_m'], w['pos_m'] < 60, 0 <= w['pos_s'], w['pos_s'] < 60,
+                    0 <= w['pos_usec'], w['pos_usec'] < 10**6, w['pos_sec'] == 3600 * w['pos_h'] + 60 * w['pos_m'] + w['pos_s'])
+        pos = w['pos'] if kind == 'number' else pos_t
+        opts = Obj('OptionsContainer', {
+            'manifestErrors': PyList([(w['code'], pos)]), 'updateCount': Opt(z3.Bool('uc_none'), z3.Int('update_count')),
+            'availabilityStartTime': ast_, 'minimumUpdatePeriod': z3.Int('mup'), 'failureCount': Opt(w['fc_none'], w['fc'])})
+        return {'self': Obj('ServeManifest', {}), 'options': opts,
+                'context': {'mpd': Obj('ManifestContext', {'now': DT(z3.Int('now_us'))})},
+                '__session__': session_of(w), '__facts__': z3.And(c1, c2)}
+    if kind == 'number':
+        addressed = '(not uc_none and pos == update_count)'
+    else:
+        tm = '(86400000000 * ast_day + 1000000 * pos_sec + ast_usec)'
+        addressed = f'({tm} <= now_us and now_us <= {tm} + 1000000 * mup)'
+    counted = '(code >= 500 and not fc_none)'
+    fires = f'({addressed} and not ({counted} and count0 + 1 > fc))'
+    return Contract(
+        key=f'{MFR}:ServeManifest.check_for_synthetic_manifest_error', variant=kind, props=['C16'], env=env,
+        requires=[('parts', '__facts__'), ('count_nonneg', 'counter_none or stored >= 0'), ('http_code', '100 <= code and code <= 599'),
+                  ('mup', 'mup >= 0')],
+        models=dict(COMMON, **{'flask.make_response': make_response}),
+        ensures=[
+            ('fires_exactly_when_addressed', f'(not is_none(result)) == {fires}'),
+            ('with_the_asked_code', f'result.status == code if {fires} else True'),
+            ('counts', f'(session_value(__session__) == count0 + 1 and not session_is_none(__session__)) '
+                       f'if ({addressed} and {counted} and count0 + 1 <= fc) else True'),
+            ('resets_after_the_configured_count', f'session_is_none(__session__) if ({addressed} and {counted} and count0 + 1 > fc) else True'),
+            ('other_requests_do_not_count', f'unchanged(__session__) if (not {addressed} or not {counted}) else True'),
+        ],
+        canaries=['is_none(result)'],
+        witness_terms=lambda w: (lambda ev: dict(wt(w)(ev), **{k: ev(z3.Int(k)) for k in (
+            'ast_day', 'ast_sec', 'ast_usec', 'pos_day', 'pos_sec', 'pos_usec', 'pos_h', 'pos_m', 'pos_s', 'now_us', 'mup',
+            'update_count')}, uc_none=ev(z3.Bool('uc_none')))),
+    )
+
+
+MANIFEST_ERR = [manifest_error('number'), manifest_error('time')]
+
+
 def lemma_fires_failure_count_times(w):
     """History: starting from a cleared counter, a 5xx error addressed to a segment fires on requests 1..fc for that
     segment, request fc+1 is served and clears the counter (then the cycle restarts) - by induction over the single-call
@@ -235,7 +283,7 @@ def lemma_fires_failure_count_times(w):
 
 
 GROUP = Group(
-    name='errors', world=world, contracts=[INCREMENT, RESET] + SYNTH + INJECTED + [INC_INLINE, RST_INLINE, SCALE_INLINE],
+    name='errors', world=world, contracts=[INCREMENT, RESET] + SYNTH + MANIFEST_ERR + INJECTED + [INC_INLINE, RST_INLINE, SCALE_INLINE],
     lemmas=[Lemma('fires_failure_count_times', ['C16'], lemma_fires_failure_count_times)],
     bounded=[{'name': 'c16_options', 'props': ['C16'], 'cmd': ['/venv/bin/python', 'bounded/c16_options.py', '{tier}', '--repo', '{repo}']}],
     assumptions=[
@@ -243,7 +291,7 @@ GROUP = Group(
         'one configured (code, position) item per content type (the list loop runs over that concrete one-element list)',
         'C16: flask.make_response(text, code) builds a response with that status',
     ],
-    not_covered=['check_for_synthetic_manifest_error (same counter, manifest side)', 'several items addressing the same '
+    not_covered=['several items addressing the same '
                  'segment with the same code (they share one counter)', 'option parsing of the error lists', 'DRM / time-source / event names: string dispatch outside the verifier\'s reach - '
                  'DRM names only by the bounded stand-in c16_options (labelled bounded)'],
 )
